@@ -19,6 +19,10 @@ inductive Arr where
   | data   -- bytes of a request that is not complete yet
   | req    -- a complete persistent (HTTP/1.1) request
   | req10  -- a complete non-persistent (HTTP/1.0) request
+  | reqx   -- a complete request whose `Connection` options make it non-persistent, whichever version its head was started in
+  /-- a complete request with a `Connection` header: persistent (by RFC token-list semantics) if sent as a whole / if it
+  completes a head that was already started as HTTP/1.1 -/
+  | reqh (fresh cont : Bool)
 deriving DecidableEq, Repr
 
 structure IC where
@@ -82,6 +86,8 @@ def arrive (c : IC) (a : Arr) : IC :=
   | .data => { c with inbox := c.inbox ++ [.data], inhead := true }
   | .req => { c with inbox := c.inbox ++ [.req], inhead := false }
   | .req10 => { c with inbox := c.inbox ++ [if c.inhead then .req else .req10], inhead := false }
+  | .reqx => { c with inbox := c.inbox ++ [.req10], inhead := false }
+  | .reqh fresh cont => { c with inbox := c.inbox ++ [if (if c.inhead then cont else fresh) then .req else .req10], inhead := false }
 
 def step (c : IC) : Ev → IC
   | .tick d => { c with now := c.now + d }
@@ -130,6 +136,8 @@ deriving Repr
 
 inductive SEv where
   | conn (ca : Nat) | tick (d : Nat) | data (ca : Nat) | req (ca : Nat) | req10 (ca : Nat) | cap (ca k : Nat)
+  /-- a complete request that is NOT persistent whatever was started before (e.g. HTTP/1.1 with `Connection: TE, close`) -/
+  | reqx (ca : Nat) | reqh (ca : Nat) (fresh cont : Bool)
   | wind (t : Nat) | svc | settmo (t : Nat)
 deriving Repr
 
@@ -142,6 +150,8 @@ def Srv.step (s : Srv) : SEv → Srv
   | .data ca => { s with conns := onConn ca (.arrive .data) s.conns }
   | .req ca => { s with conns := onConn ca (.arrive .req) s.conns }
   | .req10 ca => { s with conns := onConn ca (.arrive .req10) s.conns }
+  | .reqx ca => { s with conns := onConn ca (.arrive .reqx) s.conns }
+  | .reqh ca f c => { s with conns := onConn ca (.arrive (.reqh f c)) s.conns }
   | .cap ca k => { s with conns := onConn ca (.cap k) s.conns }
   | .wind t => { s with now := t, conns := s.conns.map fun (k, c) => (k, Idle.step c (.wind t)) }
   | .settmo t => { s with tymeout := t }
